@@ -44,7 +44,7 @@ P = {
     "generated_props": ["Spine.Props.C19Layouts"],
     "generated": ["timelayouts"],
     "generated_files": ["TimeLayouts.lean"],
-    "lemma_modules": ["Spine.C19", "Spine.RndSound", "Spine.C19Exec"],
+    "lemma_modules": ["Spine.C19", "Spine.RndSound", "Spine.C19Exec", "Spine.DurText", "Spine.DurTextThm"],
     "drivers": ["drv_num"],
     "tests": [{"name": "TestNumeric"}],
     "trusted_base": [
